@@ -75,6 +75,149 @@ theorem pow_dims (b : Nat) (x : Dims) (q : Rat) : expOf b (powDims x q) = expOf 
     simp only [List.map_cons, expOf, ih]
     split <;> ring
 
+/-! ### whole expression trees against the physical dimension calculus -/
+
+/-- the physical dimension of a unit: one rational exponent per base quantity -/
+def physLeaf (d : Dims) : Nat → Rat := fun b => expOf b (rename d)
+
+/-- the dimension physics assigns to an expression, or `none` where physics forbids it: sums, differences and
+conversions need equal dimensions (adding an exact zero is the one permitted no-op), exponents and the arguments
+of pure-number functions must be dimensionless -/
+def phys (bases : List Nat) : UExpr → Option (Nat → Rat)
+  | .leaf d => some (physLeaf d)
+  | .mul a b => match phys bases a, phys bases b with
+    | some f, some g => some (fun x => f x + g x) | _, _ => none
+  | .div a b => match phys bases a, phys bases b with
+    | some f, some g => some (fun x => f x - g x) | _, _ => none
+  | .pow a e q => match phys bases a, phys bases e with
+    | some f, some g => if bases.all (fun x => g x == 0) then some (fun x => f x * q) else none
+    | _, _ => none
+  | .add z a b => match phys bases a, phys bases b with
+    | some f, some g => if z then some f else if bases.all (fun x => g x == f x) then some f else none
+    | _, _ => none
+  | .conv a b => match phys bases a, phys bases b with
+    | some f, some g => if bases.all (fun x => f x == g x) then some g else none
+    | _, _ => none
+  | .fn1 a => match phys bases a with
+    | some f => if bases.all (fun x => f x == 0) then some (fun _ => 0) else none
+    | none => none
+  | .fn2 a b => match phys bases a, phys bases b with
+    | some f, some g => if bases.all (fun x => f x == 0) && bases.all (fun x => g x == 0) then some (fun _ => 0) else none
+    | _, _ => none
+
+theorem rename_append (x y : Dims) : rename (x ++ y) = rename x ++ rename y := by simp [rename]
+
+theorem expOf_append (b : Nat) (x y : Dims) : expOf b (x ++ y) = expOf b x + expOf b y := mul_dims b x y
+
+/-- the celsius / fahrenheit special cases of `reduce_hashmap` change offsets and scales, never the dimension -/
+theorem reduce_dims (d : Dims) : (reduce d).1 = rename d := by
+  unfold reduce
+  split
+  · rename_i h
+    unfold isExactly at h
+    split at h
+    · rename_i b e
+      simp only [Bool.and_eq_true, beq_iff_eq] at h
+      obtain ⟨h1, h2⟩ := h
+      subst h1; subst h2
+      simp [rename, celsius, fahrenheit, kelvin]
+    · cases h
+  · split
+    · rename_i h
+      unfold isExactly at h
+      split at h
+      · rename_i b e
+        simp only [Bool.and_eq_true, beq_iff_eq] at h
+        obtain ⟨h1, h2⟩ := h
+        subst h1; subst h2
+        simp [rename, celsius, fahrenheit, kelvin]
+      · cases h
+    · rfl
+
+theorem physLeaf_mul (x y : Dims) : physLeaf (mulDims x y) = fun b => physLeaf x b + physLeaf y b := by
+  funext b; simp [physLeaf, mulDims, rename_append, expOf_append]
+
+theorem rename_neg (y : Dims) : rename (y.map fun (x, e) => (x, -e)) = (rename y).map fun (x, e) => (x, -e) := by
+  simp [rename, List.map_map, Function.comp_def]
+
+theorem physLeaf_div (x y : Dims) : physLeaf (divDims x y) = fun b => physLeaf x b - physLeaf y b := by
+  funext b
+  simp only [physLeaf, divDims, rename_append, expOf_append, rename_neg, expOf_neg]
+  ring
+
+theorem rename_pow (x : Dims) (q : Rat) : rename (powDims x q) = powDims (rename x) q := by
+  simp [rename, powDims, List.map_map, Function.comp_def]
+
+theorem physLeaf_pow (x : Dims) (q : Rat) : physLeaf (powDims x q) = fun b => physLeaf x b * q := by
+  funext b; simp [physLeaf, rename_pow, pow_dims]
+
+theorem physLeaf_nil : physLeaf [] = fun _ => 0 := by funext b; simp [physLeaf, rename, expOf]
+
+theorem sameDims_phys (bases : List Nat) (x y : Dims) :
+    sameDims bases (reduce x).1 (reduce y).1 = bases.all (fun u => physLeaf x u == physLeaf y u) := by
+  simp [sameDims, reduce_dims, physLeaf]
+
+theorem sameDims_unitless (bases : List Nat) (x : Dims) :
+    sameDims bases (reduce x).1 (reduce []).1 = bases.all (fun u => physLeaf x u == 0) := by
+  rw [sameDims_phys, physLeaf_nil]
+
+/-- **the dimension of any result is the one physics assigns, and the evaluator reports an incompatibility
+exactly where physics forbids the expression** — for every expression tree -/
+theorem tree_dims (bases : List Nat) (t : UExpr) : (dimsOf bases t).map physLeaf = phys bases t := by
+  induction t with
+  | leaf d => simp [dimsOf, phys]
+  | mul a b iha ihb =>
+    simp only [dimsOf, phys, ← iha, ← ihb]
+    cases dimsOf bases a <;> cases dimsOf bases b <;> simp [physLeaf_mul]
+  | div a b iha ihb =>
+    simp only [dimsOf, phys, ← iha, ← ihb]
+    cases dimsOf bases a <;> cases dimsOf bases b <;> simp [physLeaf_div]
+  | pow a e q iha ihe =>
+    simp only [dimsOf, phys, ← iha, ← ihe]
+    cases dimsOf bases a <;> cases dimsOf bases e <;> simp [sameDims_unitless]
+    split <;> simp [physLeaf_pow]
+  | add z a b iha ihb =>
+    simp only [dimsOf, phys, ← iha, ← ihb]
+    cases dimsOf bases a <;> cases dimsOf bases b <;> simp [sameDims_phys]
+    cases z <;> simp
+  | conv a b iha ihb =>
+    simp only [dimsOf, phys, ← iha, ← ihb]
+    cases dimsOf bases a <;> cases dimsOf bases b <;> simp [sameDims_phys]
+  | fn1 a iha =>
+    simp only [dimsOf, phys, ← iha]
+    cases dimsOf bases a <;> simp [sameDims_unitless]
+    split <;> simp [physLeaf_nil]
+  | fn2 a b iha ihb =>
+    simp only [dimsOf, phys, ← iha, ← ihb]
+    cases dimsOf bases a <;> cases dimsOf bases b <;> simp [sameDims_unitless]
+    split <;> simp [physLeaf_nil]
+
+/-- in particular a sum of quantities whose physical dimensions differ (right operand not an exact zero) is
+never a number, wherever it occurs inside a larger expression it makes the whole evaluation fail -/
+theorem sum_of_different_dimensions_fails (bases : List Nat) (a b : UExpr) (f g : Nat → Rat)
+    (ha : phys bases a = some f) (hb : phys bases b = some g) (u : Nat) (hu : u ∈ bases) (hne : g u ≠ f u) :
+    dimsOf bases (.add false a b) = none := by
+  have h := tree_dims bases (.add false a b)
+  have : phys bases (.add false a b) = none := by
+    simp only [phys, ha, hb]
+    have : (bases.all fun x => g x == f x) = false := by
+      apply Bool.eq_false_iff.mpr
+      intro hall
+      have := List.all_eq_true.mp hall u hu
+      simp at this
+      exact hne this
+    simp [this]
+  rw [this] at h
+  cases hd : dimsOf bases (.add false a b) with
+  | none => rfl
+  | some d => rw [hd] at h; cases h
+
+-- non-vacuity: `(m * s) + m` fails, `(m / s) ^ 2 to (m^2 s^-2)` has dimension m^2 s^-2, `ln(m / m)` is allowed
+example : dimsOf [3, 4] (.add false (.mul (.leaf [(4, 1)]) (.leaf [(3, 1)])) (.leaf [(4, 1)])) = none := by decide +kernel
+example : (dimsOf [3, 4] (.conv (.pow (.div (.leaf [(4, 1)]) (.leaf [(3, 1)])) (.leaf []) 2) (.leaf [(4, 2), (3, -2)]))).isSome = true := by
+  decide +kernel
+example : (dimsOf [3, 4] (.fn1 (.div (.leaf [(4, 1)]) (.leaf [(4, 1)])))).isSome = true := by decide +kernel
+
 -- non-vacuity: metre vs second are incompatible in the `second` base unit
 example : expOf 3 (reduce [(4, (1 : Rat))]).1 ≠ expOf 3 (reduce [(3, (1 : Rat))]).1 := by decide +kernel
 
